@@ -60,8 +60,13 @@ func Harness_C13_tree_stays_well_formed() {
 	v.Env.AddEntry("/f", tar.TypeReg, 0, false, "")
 	v.Env.AddEntry("/d/g", tar.TypeReg, 0, false, "")
 	v.Env.AddEntry("/d/s", tar.TypeDir, 0, false, "")
-	if vm.Bool("tombstone") {
+	switch vm.Choice("tombstones", 3) {
+	case 1:
 		v.Env.AddEntry("/t", tar.TypeDir, 0, true, "")
+	case 2:
+		// what "mkdir /t; create /t/g; remove /t/g; rename /t /c; remove /c" leaves behind: the tombstone of an entry
+		// under a name that does not exist any more
+		v.Env.AddEntry("/t/g", tar.TypeReg, 0, true, "")
 	}
 	vm.Assert("C13.prestate_well_formed", c13WellFormed(v.Env.P.VerifRows()))
 
